@@ -84,8 +84,8 @@ def known_class(case, obs):
                 return "symlink-at-destination"
     # a link that the run itself moves: its new path is "the path of a symbolic link" for every later file
     moved = [(os.path.normpath(os.path.join(d, rel)), os.path.normpath(os.path.join(d, g[1]))) for d, rel, g in obs["gens"] if g[0] == "P"]
-    link_dsts = {dst for src, dst in moved if src in links and src != dst}
-    if any(dst in link_dsts and src not in links for src, dst in moved):
+    link_moves = [(src, dst) for src, dst in moved if src in links and src != dst]
+    if any(dst == ld and src != ls for src, dst in moved for ls, ld in link_moves):
         return "symlink-at-destination"
     for a in case["answers"]:
         if a[0] == "custom":
